@@ -806,10 +806,33 @@ def rule_unordered_once(chk, fb, rid="C02.d.once"):
                    detail="%s (collected from a hash container) is built %d time(s) while writing this part%s" % (u.split("::")[-1], len(sites), "" if len(sites) <= 1 else ": positions looked up in one copy do not match the order of the other"))
 
 
+def rule_list_positions(chk, fb, rid="C02.c.pos"):
+    """Drawing parts refer to their relationships by *position*: the drawing writers push ("CHART"|"IMAGE", target) onto a
+    list and write `rId<len>` (or index + 1 of an entry already there).  A relationships writer that walks this list
+    must therefore number by position, whatever it writes or skips."""
+    from props import C11
+
+    r = chk.rule(
+        rid,
+        "relationship ids that are list positions: in every relationships writer that walks a (kind, target) list handed over by a part writer, the id given to a relationship is 1 + the number of entries before the current one - a counter from 1 that advances on every path through the loop body (skipped kinds still count), or the enumeration index + 1",
+        floor=2,
+    )
+    LIST = "&[(std::string::String, std::string::String)]"
+    for d, b in sorted(fb.mir.items()):
+        if not d.startswith("writer::") or b["kind"] != "Fn":
+            continue
+        params = [i for i in range(1, b["argc"] + 1) if fb.ty(b["locals"][i]["t"]) == LIST]
+        if not params:
+            continue
+        chk.touch(d)
+        C11.positional(chk, fb, r, d, lambda at, ps=tuple(params): any(a[0] == "arg" and a[1] in ps for a in at) and not any(a[0] == "call" and a[1] in fb.mir for a in at), d.split("::", 1)[-1], what="list entry")
+
+
 def run(chk, fb, tier):
     rule_content_types(chk, fb)
     rule_targets(chk, fb)
     rule_rid_pairs(chk, fb)
+    rule_list_positions(chk, fb)
     rule_unordered_once(chk, fb)
     rule_order(chk, fb)
     rule_rows(chk, fb)
